@@ -7,10 +7,12 @@
      call and of the shadow block, newest last.  A name is resolved by scanning from the newest symbol down
      (env_get_var), so a callee sees its callers' locals (dynamic scoping).
    * eval_call pushes the parameters (first parameter first), runs the body, and truncates the stack to its old height.
-   * AST_BLOCK does NOT pop: a `let` inside an if/while body stays on the stack until the enclosing call returns (or the
-     enclosing `for` ends); symbols of one shadow block are still there when the next shadow block runs.
+   * AST_BLOCK is a scope (since fix 9481a65): it remembers the stack height on entry and restores it on every exit
+     (normal end, return, break, continue).  Blocks are the bodies of if / else / while / for and the body of a shadow
+     block; the statements of a function body are run one by one by eval_call, so function-level lets live until the
+     call returns.
    * AST_FOR pushes the loop variable, remembers its INDEX, overwrites that slot at every iteration, and truncates the
-     stack to that index at loop exit (normal end, break, return).
+     stack to that index at loop exit (normal end, break, return); its body is a block (popped after every iteration).
    * AST_SET overwrites the newest symbol of that name, mutable or not (env_set_var); nothing happens if there is none.
    * AST_ASSERT inside shadow tests: a false condition is COUNTED (g_shadow_current_fail_count) and execution goes on.
    * if / while / assert / and / or / not use is_truthy: bool b -> b, int z -> z <> 0, void -> false, string -> true.
@@ -185,15 +187,18 @@ with iexec (fuel : nat) (s : stmt) (w : world) {struct fuel} : ires ctl :=
     | SLet m x _ e => ibind (ieval fuel' e w) (fun v w1 => IOk CNormal (push w1 x m v))
     | SSet x e => ibind (ieval fuel' e w) (fun v w1 => IOk CNormal (with_stk w1 (iassign x v (w_stk w1))))
     | SIf c s1 s2 =>
-        ibind (ieval fuel' c w) (fun vc w1 => iexec fuel' (if truthy vc then s1 else s2) w1)     (* nothing popped *)
+        ibind (ieval fuel' c w) (fun vc w1 =>
+          ibind (iexec fuel' (if truthy vc then s1 else s2) w1) (fun c1 w2 =>
+            IOk c1 (with_stk w2 (truncate (length (w_stk w1)) (w_stk w2)))))          (* the branch is a block *)
     | SWhile c body =>
         ibind (ieval fuel' c w) (fun vc w1 =>
           if truthy vc then
             ibind (iexec fuel' body w1) (fun c1 w2 =>
+              let w3 := with_stk w2 (truncate (length (w_stk w1)) (w_stk w2)) in      (* the body is a block *)
               match c1 with
-              | CBreak => IOk CNormal w2
-              | CReturn v => IOk (CReturn v) w2
-              | _ => iexec fuel' (SWhile c body) w2
+              | CBreak => IOk CNormal w3
+              | CReturn v => IOk (CReturn v) w3
+              | _ => iexec fuel' (SWhile c body) w3
               end)
           else IOk CNormal w1)
     | SFor x lo hi body =>
@@ -225,7 +230,7 @@ with ifor (fuel : nat) (idx : nat) (i hi : Z) (body : stmt) (w : world) {struct 
           match c with
           | CBreak => IOk CNormal (with_stk w1 (truncate idx (w_stk w1)))
           | CReturn v => IOk (CReturn v) (with_stk w1 (truncate idx (w_stk w1)))
-          | _ => ifor fuel' idx (i + 1) hi body w1
+          | _ => ifor fuel' idx (i + 1) hi body (with_stk w1 (truncate (S idx) (w_stk w1)))   (* the body is a block *)
           end)
       else IOk CNormal (with_stk w (truncate idx (w_stk w)))
   end.
